@@ -11,7 +11,8 @@ TARGETS = ["vexec", "gm2calc.asan"]
 SHARDS = {"quick": 8, "thorough": 16}
 RULE = ("valid random points x one or two documented defects (MW >= MZ, MW = 0, MZ = 0, m_mu = 0, mu = 0, M1 = 0, M2 = 0, "
         "tan(beta) = 0, vd = 0, negative soft mass^2, forced tachyon; THDM: tan(beta) <= 0, mh > mH, |sin(beta-alpha)| > 1, "
-        "negative mass, both / neither basis given, Yukawa type outside 1..6) x force-output in {0,1} x {C++ API, program in "
+        "negative mass, both / neither basis given, Yukawa type outside 1..6, tachyon of chosen depth in a chosen Higgs state "
+        "via gauge-basis input) x force-output in {0,1} x {C++ API, program in "
         "every input format that can express the defect, minimal and GM2Calc output formats}; valid points without defect are "
         "the control group. Non-trivial = the defect reached the check it targets (refusal or warning text mentions it), a "
         "pair of defects, or force-output on.")
